@@ -212,6 +212,24 @@ package scanner
 //@   ensures [C14] ret == nil && open(self) == 1 && s.open == 1 ==> spell(s.step) == spell(self) + cls(c, self) && s.curIndex == old(s.curIndex) && s.openBegin == old(s.openBegin)
 //@   ensures [C14] ret == nil && open(self) == 1 && s.open != 1 ==> isKeywordWord(spell(self) + cls(c, self)) && s.lastEnd == old(s.curIndex)
 
+// C05, per-state component: every state treats the two line-end bytes alike and the two blank bytes alike. Two runs of the
+// same state function from the same state, differing only in the byte under the cursor, end in the same scanner state and
+// agree on error / no error (calls are abstracted as deterministic functions of the fields listed here).
+//@ equiv stepFunc(s, c) [C05] : pairs 10/13, 32/9 : byteat data,file.content curIndex : s.step, s.stepStack, s.finds, s.stack, s.curIndex, s.open, s.openBegin, s.lastEnd, s.dataSize, s.lastDirectiveParameters
+
+// C05, line comments: after '#', any byte other than '#', a line end or the end of file puts the scanner into
+// stateSingleComment, which ignores every byte up to the line end; nothing else of the scanner changes, so the state
+// saved by startComment is the one that sees the line end.
+//@ func stateCommentStarted
+//@   ensures [C05] c != 35 && c != 10 && c != 13 && c != 0 ==> ret == nil && s.step == stateSingleComment && s.curIndex == old(s.curIndex) && len(s.stepStack) == old(len(s.stepStack)) && len(s.finds) == old(len(s.finds))
+//@   ensures [C05] c != 35 && c != 10 && c != 13 && c != 0 ==> (forall k :: 0 <= k && k < len(s.stepStack) ==> s.stepStack[k] == old(s.stepStack[k]))
+//@ func stateCommentDouble
+//@   ensures [C05] c != 35 && c != 10 && c != 13 && c != 0 ==> ret == nil && s.step == stateSingleComment && s.curIndex == old(s.curIndex) && len(s.stepStack) == old(len(s.stepStack)) && len(s.finds) == old(len(s.finds))
+//@   ensures [C05] c != 35 && c != 10 && c != 13 && c != 0 ==> (forall k :: 0 <= k && k < len(s.stepStack) ==> s.stepStack[k] == old(s.stepStack[k]))
+//@ func stateSingleComment
+//@   ensures [C05] c != 10 && c != 13 && c != 0 ==> ret == nil && s.step == old(s.step) && s.curIndex == old(s.curIndex) && len(s.stepStack) == old(len(s.stepStack)) && len(s.finds) == old(len(s.finds))
+//@   ensures [C05] c != 10 && c != 13 && c != 0 ==> (forall k :: 0 <= k && k < len(s.stepStack) ==> s.stepStack[k] == old(s.stepStack[k]))
+
 //@ func (*Scanner).endCommentLine
 //@   inline
 //@ func caseWhitespace
